@@ -8,7 +8,7 @@ echo "| id | property | check | result | failing obligations (first 3) |" > $out
 echo "|---|---|---|---|---|" >> $out
 for d in seeded/m*/; do
   id=$(basename $d)
-  props=$(python3 -c "import json;print(json.load(open('$d/meta.json'))['property'].replace(',',' '))")
+  props=$(python3 -c "import json;m=json.load(open('$d/meta.json'));print(' '.join(m['property'].replace(',',' ').split()+m.get('also',[])))")
   if ! git -C /repo apply --check /verif/$d/patch.diff 2>/dev/null; then echo "| $id | $props | - | patch no longer applies | |" >> $out; continue; fi
   git -C /repo apply /verif/$d/patch.diff
   for p in $props; do
